@@ -23,7 +23,7 @@ for name in names:
 text = """
 ### 10.8 Independently seeded breaking changes (`seeded/<Cnn-k>/`, `tools/seeded.py`)
 
-%d changes were written by fresh sub-agents in eight rounds; each agent was given only the text of one
+%d changes were written by fresh sub-agents in nine rounds; each agent was given only the text of one
 property and a scratch worktree of /repo (nothing from /verif); from the second round on, the agents were also
 told which changes already existed for their property and asked for a different mechanism and site.  Each change
 is kept with its patch, the agent's demonstration program and `meta.json`; I confirmed every one myself in a
@@ -33,7 +33,7 @@ are run against a scratch copy with the patch applied (`VERIF_REPO`), never agai
 quick tier of the property's own check as it stood when the change arrived; %d were missed (most of them were
 caught by a neighbouring property's check, e.g. a scope leak seeded under C04 by C07) and led to the generator /
 oracle changes named in the last column, after which the property's own check catches them and the unchanged
-tree stays quiet.  The third round, which asked for variety beyond caches, was the hardest (15 of 28 missed); for the fourth round (40 changes) the descriptions were read first and about a dozen gaps were closed before running them, 6 were still missed; the fifth round (40 changes, agents asked for the hardest-to-notice change incl. non-JSON Python types and hangs) was treated the same way, 8 were still missed; the sixth round (40 changes, agents given the list of everything already seeded for their property and asked for what is left: untouched keywords, drafts and branches, two cooperating edits, boundaries, ordering assumptions) was run without reading the descriptions first: 13 were missed, one of them because of a slip in the harness itself (C19-9) and one as a harness error (C07-10); the seventh round (40 changes; agents asked for sites no earlier change touches, maintainer-style edits such as backports of later upstream features, effects visible only in secondary observables, and histories) was the most productive: 26 were missed at first.  One of its changes (a oneOf message naming only two of three matching subschemas) was dropped again: the listed properties say nothing about the wording of messages, so it breaks none of them.  The eighth round (40 changes) asked for the blind spots of a randomised tester -- size thresholds, rare coincidences between independently drawn parts, object identity and aliasing, state left behind by a call that died half-way; this time the agents' summaries were read first and the generators widened (sizes beyond 32, aliased parts, keyword-like names, deep recursion ...) before the run: of the 40, 12 were caught by what existed before the round, the others needed the additions named in the last column, one (C07-13) is not caught and one (C11-11) only in mirror image by C02.
+tree stays quiet.  The third round, which asked for variety beyond caches, was the hardest (15 of 28 missed); for the fourth round (40 changes) the descriptions were read first and about a dozen gaps were closed before running them, 6 were still missed; the fifth round (40 changes, agents asked for the hardest-to-notice change incl. non-JSON Python types and hangs) was treated the same way, 8 were still missed; the sixth round (40 changes, agents given the list of everything already seeded for their property and asked for what is left: untouched keywords, drafts and branches, two cooperating edits, boundaries, ordering assumptions) was run without reading the descriptions first: 13 were missed, one of them because of a slip in the harness itself (C19-9) and one as a harness error (C07-10); the seventh round (40 changes; agents asked for sites no earlier change touches, maintainer-style edits such as backports of later upstream features, effects visible only in secondary observables, and histories) was the most productive: 26 were missed at first.  One of its changes (a oneOf message naming only two of three matching subschemas) was dropped again: the listed properties say nothing about the wording of messages, so it breaks none of them.  The eighth round (40 changes) asked for the blind spots of a randomised tester -- size thresholds, rare coincidences between independently drawn parts, object identity and aliasing, state left behind by a call that died half-way; this time the agents' summaries were read first and the generators widened (sizes beyond 32, aliased parts, keyword-like names, deep recursion ...) before the run: of the 40, 12 were caught by what existed before the round, the others needed the additions named in the last column, one (C07-13) is not caught and one (C11-11) only in mirror image by C02.  The ninth round (40 changes) asked for triggers of a kind no earlier change had used (negative halves, single drafts' own keywords, two features combined, Python-level behaviour of the API objects, boundary values); 24 were caught as things stood (a handful thanks to additions made from the agents' summaries before the run), 10 needed the additions named in the last column, 5 are seen only by a neighbouring property's check and one (C18-15, a thread race of a few bytecodes) by none.
 
 | change | files | what it does (first sentence of the author's description) | outcome |
 |---|---|---|---|
